@@ -192,3 +192,60 @@ class RealizeMemrefCasts_placement_contract:
 
     def canary(sh, a, ret):
         check("canary: no copy is ever needed", all(e[0] != "insert_op" for e in ret) and any(k != "N" for k in sh["seq"]))
+
+
+# =====================================================================================
+# RealizeMemrefCasts: the stand-in buffer has the run-time extents of the original, dimension by dimension
+# =====================================================================================
+from pyvc.api import den, mk_memref_value  # noqa: E402
+from xdsl.dialects.builtin import DYNAMIC_INDEX  # noqa: E402
+
+DYN_SHAPES = [dict(mask=m) for m in ((True,), (True, False), (False, True), (True, True), (False, True, False), (True, False, True), (False, False, True), (True, True, False))]
+
+
+@contract
+class RealizeMemrefCasts_dynamic_sizes_contract:
+    """every dynamic dimension of the stand-in allocation gets the run-time extent of THAT dimension of the original"""
+    target = "snaxc.transforms.realize_memref_casts.RealizeMemrefCasts.match_and_rewrite"
+    shapes = DYN_SHAPES
+    native = False
+    total = True
+    permissive = True
+    compare_ret = False
+
+    def args(sh, sym):
+        mask = sh["mask"]
+        n = len(mask)
+        static = [3 + k for k in range(n)]
+        shape = [DYNAMIC_INDEX if mask[k] else static[k] for k in range(n)]
+        rt = [sym.int(f"n{k}", 1) if mask[k] else static[k] for k in range(n)]
+        src_t = MemRefType(i32, shape, NoneAttr(), StringAttr("L3"))
+        dst_t = MemRefType(i32, shape, NoneAttr(), StringAttr("L1"))
+        src = mk_memref_value(src_t, rt)
+        cast = LayoutCast(src, dst_t)
+        user = mk_user("R", cast.results[0], SSAValue(None, dst_t))
+        blk = Block([cast, user])
+        Region([blk])
+        return [RealizeMemrefCasts(), cast, rt]
+
+    def run(sh, a):
+        rw = PatternRewriter(a[1])
+        a[0].match_and_rewrite(a[1], rw)
+        return rw.log
+
+    def ensures(sh, a, ret):
+        pat, cast, rt = a
+        mask = sh["mask"]
+        reps = [e for e in ret if e[0] == "replace_op" and e[1] is cast]
+        check("the cast is replaced by ops ending in the allocation", len(reps) == 1 and isinstance(reps[0][2][-1], memref.AllocOp))
+        alloc = reps[0][2][-1]
+        dyn = list(alloc.dynamic_sizes)
+        want = [rt[k] for k in range(len(mask)) if mask[k]]
+        check("one dynamic size per dynamic dimension", len(dyn) == len(want))
+        for j in range(len(want)):
+            check(f"dynamic size {j} of the stand-in == run-time extent of the original's dynamic dimension #{j} (same position in the shape)", den(dyn[j]) == want[j])
+        check("every op computing a size is part of the replacement, before the allocation",
+              all(any(d.owner is o for o in reps[0][2][:-1]) for d in dyn))
+
+    def canary(sh, a, ret):
+        check("canary: no dynamic sizes are ever passed", len([e for e in ret if e[0] == "replace_op"][0][2][-1].dynamic_sizes) == 0)
